@@ -17,7 +17,7 @@ CHECKS = {
         technique='Coq proof (induction over the divisor loop) + model/implementation correspondence by differential execution + independent oracle',
         design='7/C14'),
     'C01': dict(
-        text='PARTIAL. Theorems on the models: every recogniser leaves the cursor inside its input and reports extents inside it (block overshoot and quote back-step included), the unit scanner consumes between 1 and len bytes, the header lies inside the unit, the unit loop and the input rescan loop never exhaust their fuel (termination), channel lists and the array readers never store beyond the announced capacity (array_reader_capacity, chan_entry_capacity), and after every SCPI_Input call of every history (overrunning chunks, any handler scripts) the buffered length stays below the buffer length, so the terminating store is always inside (input_buffer_inv_history). What a model cannot exhibit -- real memory safety and UB of the compiled code -- is decided by running the ASan+UBSan build (exact-size heap buffers -- zero-length ones taken from a poisoned region --, poisoned unused tail of the input buffer via the SCPI_PARSER_VERIF hook, watchdog) in four build configurations on grammar-derived, mutated and raw byte streams in all chunkings with scripts applying every API; any sanitizer or watchdog event is the violation, with the case as replay.',
+        text='PARTIAL. Theorems on the models: every recogniser leaves the cursor inside its input and reports extents inside it (block overshoot and quote back-step included), the unit scanner consumes between 1 and len bytes, the header lies inside the unit, the unit loop and the input rescan loop never exhaust their fuel (termination), channel lists and the array readers never store beyond the announced capacity (array_reader_capacity, chan_entry_capacity), and after every SCPI_Input call of every history (overrunning chunks, any handler scripts) the buffered length stays below the buffer length, so the terminating store is always inside (input_buffer_inv_history). What a model cannot exhibit -- real memory safety and UB of the compiled code -- is decided by running the ASan+UBSan build (exact-size heap buffers -- zero-length ones taken from a poisoned region --, poisoned unused tail of the input buffer via the SCPI_PARSER_VERIF hook, watchdog) in four build configurations on grammar-derived, mutated and raw byte streams in all chunkings with scripts applying every API; any sanitizer or watchdog event is the violation, with the case as replay. The thorough tier adds a coverage-guided search (libFuzzer over the same scenario runner, 240 s x 8 jobs, every API in the handler scripts); inputs it finds are re-run as ordinary cases and reported with their replay -- a search aid, never a substitute for a theorem.',
         technique='Coq proof of cursor bounds / progress / termination on the models + sanitised differential execution in 4 build configurations (the memory-safety half is exploration, stated as such)', design='7/C01'),
     'C04': dict(
         text='Theorems: the strtol model reads blanks, sign and decimal digits to exactly their value and the width conversion is exact in range (decint_exact_signed), #H/#Q/#B digit strings read to exactly their value (nondec_exact), strtod_exact_literal / strtod_bits_literal: on sign? digits [. digits] [E sign? digits] followed by anything that cannot continue it the strtod model extracts exactly the written mantissa digits and exponent, so the value it rounds is mantissa * 10^(exponent - fraction digits) (the clamp of absurd exponents depends on the digit count and cannot change the result), and that rounding is round-to-nearest-even with the right binary exponent (bin_exp_correct, rounded_nearest, rounded_normal_range); read_uint_item: through SCPI_Parameter and the 32-bit reader an in-range unsigned literal inside a list decodes to exactly its value, every row of the generated unit table under every casing and every special / boolean name is found (unit_rows, specials, bool_names: evaluation over the tables regenerated from units.c). libc strtod/strtol and the FPU multiply are modelled, tied to glibc by the correspondence on grammar-generated literals; an independent exact-rational oracle judges the bits the handler received. White space inside a number is a recorded finding.',
